@@ -76,3 +76,11 @@ CLAIMS["C05"] = (
     "Trusts itertools.product; initial label placement and derived totals in LabelMapper.build_model are not analysed.",
     "DESIGN.md section 4 C05",
 )
+CLAIMS["C20"] = (
+    "abstract interpretation of every exported loss over the domain (sign, zero-at-equality, growth in the prediction), plus structural checks of the copy discipline of all 17 fit routines, the three residuals and the standard-scaling map",
+    "Decides: (L1) for all prediction/data pairs at once, which shipped losses are provably >= 0 and 0 at prediction == data (5 of 7) and which provably are not (mean: signed, unbounded below; cosine_similarity: -|pred||true| rewards size) - both recorded as known findings; "
+    "(L2) as_deepcopy defaults to True in every public fit routine and the model reaching the residual settings is the copy (or the flag is forwarded); (L3) residuals apply the candidate values before simulating, evaluate the loss on the data's columns, and map failure to +inf; "
+    "(L4) standard scaling applies the same affine map to data and prediction. Optimiser outcomes ('never worse than the start', reported = recomputed loss) are not decided.",
+    "Abstract transfer functions assume numpy semantics; a loss outside the domain is reported as INFO without a verdict.",
+    "DESIGN.md section 4 C20, Appendix A.5",
+)
